@@ -189,7 +189,13 @@ impl Hash for SExp {
                 a.hash(state);
             }
             SExp::Integer(_, i) => {
-                u8_from_number(i.clone()).hash(state);
+                // Zero is nil (see nilp and equal_to), so it must hash like nil.
+                let bizero: Number = zero();
+                if *i == bizero {
+                    Vec::<u8>::new().hash(state);
+                } else {
+                    u8_from_number(i.clone()).hash(state);
+                }
             }
         }
     }
